@@ -267,14 +267,14 @@ func (c *c02Flat) inst(e *c02Env) *insts.Inst {
 
 func c02OpName(opc int) string {
 	return map[int]string{16: "ubyte", 17: "sbyte", 18: "ushort", 19: "sshort", 20: "dword", 21: "dwordx2", 22: "dwordx3", 23: "dwordx4",
-		28: "dword", 29: "dwordx2", 30: "dwordx3", 31: "dwordx4"}[opc]
+		24: "byte", 26: "short", 28: "dword", 29: "dwordx2", 30: "dwordx3", 31: "dwordx4"}[opc]
 }
 
 func c02Width(opc int) (width, cnt int) {
 	switch opc {
-	case 16, 17:
+	case 16, 17, 24:
 		return 1, 1
-	case 18, 19:
+	case 18, 19, 26:
 		return 2, 1
 	case 20, 28:
 		return 4, 1
@@ -530,9 +530,9 @@ func c02GenFlat(rng *Rng, store bool) *c02Flat {
 		c.arch = "cdna3"
 	}
 	if store {
-		c.opc = rng.Pick(28, 28, 29, 30, 31)
+		c.opc = rng.Pick(24, 26, 28, 28, 29, 30, 31)
 	} else {
-		c.opc = rng.Pick(16, 17, 18, 20, 20, 21, 23)
+		c.opc = rng.Pick(16, 17, 18, 19, 20, 20, 21, 22, 23)
 	}
 	switch rng.Intn(6) {
 	case 0:
@@ -955,12 +955,20 @@ func runC02(r *Run, rng *Rng, replay string) {
 			e.runLoad(r, rng, c)
 		}
 	}
-	// opcodes one side does not implement (one replayed witness each)
-	for _, opc := range []int{19, 22} {
-		c := &c02Flat{opc: opc, arch: "gcn3", exec: 5, dst: 8, seed: 9, vals: []uint64{0x100000000, 0x100000040}, ord: []int{1, 0}}
-		e.runLoad(r, rng, c)
+	// opcodes one side did not implement before the repairs (one replayed witness each, both ALUs)
+	for _, arch := range []string{"gcn3", "cdna3"} {
+		for _, opc := range []int{19, 22} {
+			c := &c02Flat{opc: opc, arch: arch, exec: 5, dst: 8, seed: 9, vals: []uint64{0x100000000, 0x100000040}, ord: []int{1, 0}}
+			e.runLoad(r, rng, c)
+		}
+		// byte / short stores: the coalescer merged the whole data dword before the repair
+		for _, opc := range []int{24, 26} {
+			c := &c02Flat{opc: opc, arch: arch, exec: 5, dst: 8, seed: 9, vals: []uint64{0x100000001, 0x10000007e}, ord: []int{1, 0}}
+			e.runStore(r, rng, c)
+		}
 	}
 	e.runSmem(r, rng, 4, 16, 0x100000000, 3, []int{0})
+	e.runSmem(r, rng, 4, 16, 0x100000030, 3, []int{1, 0})
 	// line-straddling witnesses (hypotheses of the theorems)
 	e.runLoad(r, rng, &c02Flat{opc: 20, arch: "gcn3", exec: 1, dst: 8, seed: 5, vals: []uint64{0x10000003e}, ord: []int{0}})
 	e.runLoad(r, rng, &c02Flat{opc: 18, arch: "gcn3", exec: 1, dst: 8, seed: 5, vals: []uint64{0x10000003f}, ord: []int{0}})
@@ -990,7 +998,7 @@ func runC02(r *Run, rng *Rng, replay string) {
 		e.runStore(r, rng, c)
 	}
 	for i := 0; i < nSm; i++ {
-		opc := rng.Intn(4)
+		opc := rng.Intn(5)
 		n := 4 << uint(opc)
 		start := uint64(0x100000000) + uint64(rng.Intn(1<<16))*64
 		switch rng.Intn(4) {
@@ -1008,7 +1016,7 @@ func runC02(r *Run, rng *Rng, replay string) {
 			}
 		}
 		nch := 1
-		if start%64+uint64(n) > 64 {
+		if (start&^3)%64+uint64(n) > 64 {
 			nch = 2
 		}
 		ord := rng.Perm(nch)
